@@ -977,7 +977,16 @@ func (c *EvalCtx) stage2Builtin(n *Node) (Val, bool) {
 			return tFalse, true
 		}
 		ma := c.st.Heap[m.Cell].(*MapAgg)
-		k := keyIndex(ma, c.eval(n.Kids[1]))
+		key := c.eval(n.Kids[1])
+		k := keyIndex(ma, key)
+		if k >= 0 && k < len(ma.Oks) && ma.Oks[k] != nil {
+			return ma.Oks[k], true // an entry of a symbolic map is present iff its flag says so
+		}
+		if k < 0 && ma.Unknown {
+			// a symbolic map that was never asked about this key: unknown
+			kt, _ := key.(Text)
+			return mkVar("has?!"+ma.Tag+"!"+sanitize(kt.String()), SBool), true
+		}
 		return mkBool(k >= 0), true
 	case "regexp_pattern_is":
 		// every regexp.MatchString call of the fragment matches against exactly
